@@ -23,6 +23,11 @@ type echRand struct {
 	single []byte
 	pos    int
 	stream *scriptRand
+	// sent reports whether the client has already written its first ClientHello: until then the
+	// scripted draws repeat cyclically (an initialisation that is wrongly re-run keeps drawing the
+	// same answers), afterwards the draws come from the stream (a wrongly re-run initialisation
+	// now changes the extension)
+	sent func() bool
 }
 
 // calledFromGreaseECHInit reports whether the read comes from the GREASE ECH initialisation
@@ -43,8 +48,8 @@ func calledFromGreaseECHInit() bool {
 }
 
 func (e *echRand) Read(p []byte) (int, error) {
-	if len(p) == 1 && e.pos < len(e.single) && calledFromGreaseECHInit() {
-		p[0] = e.single[e.pos]
+	if len(p) == 1 && calledFromGreaseECHInit() && (e.sent == nil || !e.sent()) {
+		p[0] = e.single[e.pos%len(e.single)]
 		e.pos++
 		return 1, nil
 	}
@@ -108,7 +113,9 @@ func c16Scenario() *explore.Scenario {
 			}
 			var views []view
 			for conn := 0; conn < 4; conn++ {
-				rand.Reader = &echRand{single: []byte{cfgID + byte(conn), suiteDraw, lenDraw}, stream: newScriptRand(fmt.Sprintf("c16-%d", conn))}
+				var ce *peer.Endpoint
+				rand.Reader = &echRand{single: []byte{cfgID + byte(conn), suiteDraw, lenDraw}, stream: newScriptRand(fmt.Sprintf("c16-%d", conn)),
+					sent: func() bool { return ce != nil && ce.WriteCount() > 0 }}
 				scfg := peer.ServerConfig()
 				scfg.MinVersion = tls.VersionTLS13
 				if hrr {
@@ -116,7 +123,7 @@ func c16Scenario() *explore.Scenario {
 				}
 				cfg := peer.ClientConfig("example.com")
 				cfg.OmitEmptyPsk = true
-				hs := peer.Run(cfg, n.ID, scfg, peer.Opts{Echo: true})
+				hs := peer.Run(cfg, n.ID, scfg, peer.Opts{Echo: true, WrapClient: func(e *peer.Endpoint) { ce = e }})
 				rand.Reader = saved
 				if hs.CPanic != "" {
 					r.Violate("C16|panic", "%s: %s", what, truncStr(hs.CPanic, 300))
